@@ -4,14 +4,18 @@
    `run pick fuel init ops = Some st` : the model of TableMethod went through the
    history `ops` (insertions of forest keys — any arity, repeated children,
    shifts of either sign — interleaved with is_pumping queries) without
-   running out of fuel (termination is NOT proved: partial correctness), with
-   ANY resolution `pick` of the arbitrary `set.pop()` choices.
+   running out of fuel, with ANY resolution `pick` of the arbitrary `set.pop()`
+   choices.  TERMINATION IS PROVED (second half of this file): the run returns
+   for every fuel >= fuel_bound ops (an explicit computable bound), more fuel
+   never changes the answer, and `run_total pick ops` is the state it returns;
+   the C03_total_* theorems restate the main theorems with no fuel hypothesis.
    `keys_of ops` is the list of inserted keys; `derivable/pumps/terms` (Spec.v)
    are the inductive least-fixed-point reading of "terms computable".
    Because the statements hold for every history, they hold after every
    insertion (every prefix is a history). *)
 From Coq Require Import ZArith List Bool Permutation.
-From CSS Require Import Forest.Spec Forest.Model Forest.Correct Forest.Theorems Forest.GenBridge.
+From CSS Require Import Base.Sx Forest.Spec Forest.Model Forest.Invariant Forest.Correct Forest.Theorems
+  Forest.GenBridge Forest.TerminationDefs Forest.TerminationGap Forest.Termination Forest.TerminationRun Forest.Run.
 From CSS Require Gen.ForestCanGiveTerms Gen.ForestComputeShift Gen.ForestPreimageGap.
 Import ListNotations.
 Open Scope Z_scope.
@@ -105,6 +109,101 @@ Theorem C03_gap_search_is_source : forall f g,
   Model.preimage_gap f g = ForestPreimageGap.preimage_gap (hist f) g.
 Proof. exact preimage_gap_is_source. Qed.
 
+(* ================= TERMINATION (total correctness) =================
+   Model.process (TableMethod._process_queue) recurses on explicit fuel and
+   returns None when it runs out.  The fuel is never the reason for failure. *)
+
+(* every history (any keys, any queries), every resolution of set.pop():
+   the run returns as soon as the fuel reaches the explicit bound
+     fuel_bound ops = (3R+1) * n * ((n+1)*g + 2) + 3,
+   R = #inserted keys, n = 1 + largest label, g = max(1, largest |shift|) *)
+Theorem C03_terminates : forall pick ops fuel,
+  (fuel_bound ops <= fuel)%nat -> exists st, run pick fuel init ops = Some st.
+Proof. exact run_terminates. Qed.
+
+Theorem C03_fuel_bound_explicit : forall ops,
+  Z.of_nat (fuel_bound ops) =
+  (3 * Z.of_nat (length (keys_of ops)) + 1) *
+    ((max_label ops + 1) * ((max_label ops + 1 + 1) * max_shift ops + 2)) + 3.
+Proof. exact fuel_bound_explicit. Qed.
+
+(* more fuel gives the same answer (from any state) *)
+Theorem C03_fuel_monotone : forall pick fuel fuel' ops st st',
+  run pick fuel st ops = Some st' -> (fuel <= fuel')%nat -> run pick fuel' st ops = Some st'.
+Proof. intros pick fuel fuel' ops st st'. exact (run_fuel_mono pick fuel fuel' ops st st'). Qed.
+
+(* hence the model is a total function of (pick, history): run_total *)
+Theorem C03_run_total : forall pick ops fuel,
+  (fuel_bound ops <= fuel)%nat -> run pick fuel init ops = Some (run_total pick ops).
+Proof. intros pick ops fuel. exact (run_enough_fuel pick fuel ops). Qed.
+
+Theorem C03_fuel_irrelevant : forall pick fuel ops st,
+  run pick fuel init ops = Some st -> st = run_total pick ops.
+Proof. exact run_some_is_total. Qed.
+
+(* the measure: every iteration of the `while` loop of _process_queue (pstep)
+   preserves the loop invariant TInv (= the run invariant Inv of the partial
+   correctness proof + held has no duplicates + the cached gap starts at most
+   at #labels * gap_size + 1) and strictly decreases
+     mu st = (3|rules|+1) * SUM_{finite v in table} (1 + max 0 (B - v)) + 2|queue| + |held|,
+     B = (#labels + 1) * gap_size + 1 *)
+Theorem C03_loop_is_pstep : forall pick fuel st,
+  process pick (S fuel) st =
+  match pstep pick st with None => Some st | Some st' => process pick fuel st' end.
+Proof. exact process_unfold. Qed.
+
+Theorem C03_iteration_decreases : forall pick st st',
+  TInv st -> pstep pick st = Some st' -> TInv st' /\ Same st st' /\ 0 <= mu st' < mu st.
+Proof.
+  exact pstep_decreases_nonneg.
+Qed.
+
+(* one _process_queue call terminates from every state satisfying the loop invariant *)
+Theorem C03_process_terminates : forall pick fuel st,
+  TInv st -> mu st < Z.of_nat fuel -> exists st', process pick fuel st = Some st'.
+Proof. exact process_terminates. Qed.
+
+(* why values stay bounded — pigeonhole: the first window of g consecutive
+   values with empty pre-image starts at most at (#table entries) * g *)
+Theorem C03_gap_start_bounded : forall f g, 1 <= g ->
+  Model.preimage_gap f g <= Z.of_nat (length f) * g.
+Proof. exact preimage_gap_le. Qed.
+
+(* the main theorems with NO fuel hypothesis *)
+Theorem C03_total_sound_complete : forall pick ops c,
+  (pumping_answer (run_total pick ops) c = true <-> pumps (keys_of ops) c) /\
+  (forall n, getf (fn (run_total pick ops)) c = Some n <-> terms (keys_of ops) c n).
+Proof. exact total_sound_complete. Qed.
+
+Theorem C03_total_order_independent : forall pick pick' ops ops',
+  (forall r, In r (keys_of ops) <-> In r (keys_of ops')) ->
+  forall c, getf (fn (run_total pick ops)) c = getf (fn (run_total pick' ops')) c.
+Proof. exact total_order_independent. Qed.
+
+Theorem C03_total_monotone : forall pick pick' ops ops',
+  incl (keys_of ops) (keys_of ops') ->
+  forall c, match getf (fn (run_total pick ops)) c, getf (fn (run_total pick' ops')) c with
+            | None, None => True
+            | None, Some _ => False
+            | Some n, Some m => n <= m
+            | Some _, None => True
+            end.
+Proof. exact total_monotone. Qed.
+
+Theorem C03_total_pumping_subuniverse : forall pick ops i,
+  In i (pumping_subuniverse (run_total pick ops)) <->
+    (i < length (keys_of ops))%nat /\
+    let r := nth i (keys_of ops) dummy in
+    pumps (keys_of ops) (parent r) /\ forall c s, In (c, s) (kids r) -> pumps (keys_of ops) c.
+Proof. exact total_subuniverse_spec. Qed.
+
+(* the extracted model run by the harness (Forest/Run.v) uses fuel_bound: it
+   can never answer "out of fuel" (-1), so agreement with the implementation
+   is never an artefact of the fuel *)
+Theorem C03_harness_never_out_of_fuel : forall ops,
+  ~ In (L [I (-1)]) (run_obs (fuel_for ops) init ops).
+Proof. exact run_obs_never_out_of_fuel. Qed.
+
 (* non-vacuity: a history with a negative shift, a class that pumps only
    after a gap move, a finite non-zero class and an unknown label *)
 Example C03_nonvacuous :
@@ -121,6 +220,14 @@ Example C03_nonvacuous_finite :
              map (getf (fn st)) [0; 1; 2; 3]%nat = [Some 3; Some 1; Some 0; None].
 Proof. eexists. split; vm_compute; reflexivity. Qed.
 
+Example C03_total_nonvacuous :
+  let ops := [AddKey (mkkey 0 [(1%nat, 1)]); AddKey (mkkey 1 [(1%nat, 2); (2%nat, -1)]);
+              IsPumping 7; AddKey (mkkey 2 [(3%nat, 3)]); AddKey (mkkey 4 [(0%nat, 0); (4%nat, 1)]);
+              AddKey (mkkey 2 [])] in
+  Z.of_nat (fuel_bound ops) = 3715 /\
+  map (getf (fn (run_total (fun _ => O) ops))) [0; 1; 2; 3; 4; 7]%nat = [None; None; None; Some 0; None; Some 0].
+Proof. split; vm_compute; reflexivity. Qed.
+
 Print Assumptions C03_sound_complete.
 Print Assumptions C03_order_independent.
 Print Assumptions C03_permutation_independent.
@@ -130,3 +237,17 @@ Print Assumptions C03_function_dict.
 Print Assumptions C03_gap_lemma.
 Print Assumptions C03_firing_test_is_source.
 Print Assumptions C03_gap_search_is_source.
+Print Assumptions C03_terminates.
+Print Assumptions C03_fuel_bound_explicit.
+Print Assumptions C03_fuel_monotone.
+Print Assumptions C03_run_total.
+Print Assumptions C03_fuel_irrelevant.
+Print Assumptions C03_loop_is_pstep.
+Print Assumptions C03_iteration_decreases.
+Print Assumptions C03_process_terminates.
+Print Assumptions C03_gap_start_bounded.
+Print Assumptions C03_total_sound_complete.
+Print Assumptions C03_total_order_independent.
+Print Assumptions C03_total_monotone.
+Print Assumptions C03_total_pumping_subuniverse.
+Print Assumptions C03_harness_never_out_of_fuel.
